@@ -24,6 +24,16 @@ type Options struct {
 	PlainSubjects     bool // only words and conventional prefixes in subjects
 	NoMoveUpRename    bool // no rename that git prints as `dir/{sub => }/file`
 	NoFullPathRename  bool // no rename that git prints as `old => new` (paths without a common directory)
+
+	// Widening options added later. All default to off, and with all of them off the
+	// sequence of draws (hence every existing seed and shrink path) is unchanged.
+	ExecFiles         bool // an added file may be executable: git prints `create mode 100755`, `delete mode 100755`
+	BigFiles          bool // an added file may have 100-1100 lines: numstat figures of three and four digits
+	AffixNames        bool // file names that are a prefix / a suffix of another name in the pool (f.txt.orig, xf.txt)
+	BulkAdds          bool // a commit may add 9-24 further files at once, whatever MaxPaths says
+	PunctAuthors      bool // author names with - ' . [ ] ( ) @ inside
+	LeadingBlankPaths bool // path components that begin with a blank (" lead.txt", "a/ x/f.txt")
+	MaxAuthors        int  // distinct author draws per history, default 4
 }
 
 var (
@@ -47,6 +57,11 @@ var (
 	tokColon      = []string{"note:", "re: x", "::", "a:b"}
 	tokMisc       = []string{"#123", "(#45)", "100%", "src/main.go", `"quoted"`, "it's", "{a => b}", "naïve", "修复", "1 2", "two  blanks"}
 
+	authorPoolPunct = []string{"Jean-Luc O'Neil", "dependabot[bot]", "J. R. Smith", "x (y) z", "a@b", "Ann-Lee"}
+	namePoolAffix   = []string{"f.txt.orig", "xf.txt", "Makefile.am", "main.go.bak", "a-main.go"}
+	dirPoolBlank    = []string{" x", "a/ lead"}
+	namePoolBlank   = []string{" lead.txt", " 1 x.md"}
+
 	zonePool  = []string{"+0000", "+0800", "-0700", "+0530"}
 	clockPool = []string{"12:00:00", "00:30:00", "23:45:10"}
 )
@@ -57,6 +72,9 @@ func (o Options) withDefaults() Options {
 	}
 	if o.MaxPaths == 0 {
 		o.MaxPaths = 5
+	}
+	if o.MaxAuthors == 0 {
+		o.MaxAuthors = 4
 	}
 	return o
 }
@@ -91,17 +109,35 @@ func splitPath(p string) (string, string) {
 }
 
 func (g *genState) dirs() []string {
+	out := dirPool
 	if g.o.NumericSpacePaths {
-		return append(append([]string{}, dirPool...), dirPoolNumeric...)
+		out = append(append([]string{}, out...), dirPoolNumeric...)
 	}
-	return dirPool
+	if g.o.LeadingBlankPaths {
+		out = append(append([]string{}, out...), dirPoolBlank...)
+	}
+	return out
 }
 
 func (g *genState) names() []string {
+	out := namePool
 	if g.o.NumericSpacePaths {
-		return append(append([]string{}, namePool...), namePoolNum...)
+		out = append(append([]string{}, out...), namePoolNum...)
 	}
-	return namePool
+	if g.o.AffixNames {
+		out = append(append([]string{}, out...), namePoolAffix...)
+	}
+	if g.o.LeadingBlankPaths {
+		out = append(append([]string{}, out...), namePoolBlank...)
+	}
+	return out
+}
+
+func (g *genState) authorNames() []string {
+	if g.o.PunctAuthors {
+		return append(append([]string{}, authorPool...), authorPoolPunct...)
+	}
+	return authorPool
 }
 
 // free makes candidate p usable in tree work: when it is occupied or already touched in
@@ -305,6 +341,12 @@ func (g *genState) ops(work Tree, own func(string) bool) []Op {
 			if g.o.Binary && rapid.IntRange(0, 6).Draw(t, "binary") == 6 {
 				op.Binary = true
 			}
+			if g.o.BigFiles && rapid.IntRange(0, 11).Draw(t, "big") == 11 {
+				op.Lines = rapid.IntRange(100, 1100).Draw(t, "bigLines")
+			}
+			if g.o.ExecFiles && rapid.IntRange(0, 4).Draw(t, "exec") == 4 {
+				op.Exec = true
+			}
 			touched[p] = true
 			work[p] = &File{Lines: make([]string, op.Lines), Binary: op.Binary}
 			ops = append(ops, op)
@@ -364,6 +406,17 @@ func (g *genState) ops(work Tree, own func(string) bool) []Op {
 			ops = append(ops, op)
 		}
 	}
+	if g.o.BulkAdds && rapid.IntRange(0, 11).Draw(t, "bulk") == 11 {
+		// an import of many files in one commit (MaxPaths does not apply to it)
+		k := rapid.IntRange(9, 24).Draw(t, "bulkFiles")
+		for i := 0; i < k; i++ {
+			p := g.newPath(work, touched)
+			op := Op{Kind: "add", Path: p, Lines: rapid.IntRange(1, 3).Draw(t, "lines")}
+			touched[p] = true
+			work[p] = &File{Lines: make([]string, op.Lines)}
+			ops = append(ops, op)
+		}
+	}
 	return ops
 }
 
@@ -371,9 +424,9 @@ func (g *genState) ops(work Tree, own func(string) bool) []Op {
 func Gen(t *rapid.T, o Options) History {
 	o = o.withDefaults()
 	g := &genState{t: t, o: o, st: newState()}
-	nAuthors := rapid.IntRange(1, 4).Draw(t, "nAuthors")
+	nAuthors := rapid.IntRange(1, o.MaxAuthors).Draw(t, "nAuthors")
 	for i := 0; i < nAuthors; i++ {
-		g.authors = append(g.authors, rapid.SampledFrom(authorPool).Draw(t, "authorName"))
+		g.authors = append(g.authors, rapid.SampledFrom(g.authorNames()).Draw(t, "authorName"))
 	}
 	n := rapid.IntRange(1, o.MaxCommits).Draw(t, "nCommits")
 	var h History
